@@ -125,10 +125,12 @@ class ComponentCatalog:
                 ns_type = ServiceType.OVS
 
             interfaces_dict = component_dict['Interfaces']
+            # ids and labels are optional independently of each other, each must match the catalog
             if interface_node_ids is not None:
                 if len(interface_node_ids) != len(interfaces_dict.keys()):
                     raise RuntimeError("The number of interface IDs provided is insufficient for this component "
                                        f"(need {len(interfaces_dict.keys())} instead of {len(interface_node_ids)}")
+            if interface_labels is not None:
                 if len(interface_labels) != len(interfaces_dict.keys()):
                     raise RuntimeError("The number of PCI labels and MAC addresses provided is insufficient for this"
                                        f" component (need {len(interfaces_dict.keys())} instead of "
